@@ -590,16 +590,28 @@ class C33(Prop):
     props_module = 'LokiModel.Props.C33'
     findings_module = 'LokiModel.Findings.C33'
     driver = 'Drivers/C33.lean'
-    theorems = []
+    theorems = ['region_coincidence', 'outline_sound_partial', 'outline_failure_preserved']
     design_ref = 'DESIGN.md 4.F C33'
     level = 'proof'
-    level_text = ''
-    level_note = ''
+    level_text = ('region_coincidence (full, unbounded: a region body without ASSOCIATE/CALL runs identically from any two states that '
+                  'agree on its variables, all fuels); outline_sound_partial / outline_failure_preserved (the CALL to the outlined '
+                  'unit = entry state, body, copy-out of the interpreter; body result agrees with the region run in the caller on '
+                  'all region variables and the output; hypotheses: entry state exists and agrees with the caller on the region '
+                  'variables; missing: derivation of that hypothesis from a typing invariant and the copy-out lemma). Classification '
+                  'in/inout/out, ordering, declarations, call: modelled and tied by correspondence. Extraction of internal '
+                  'procedures: oracle only.')
+    level_note = ('FIR call semantics (Sem.lean) = copy-in for every dummy, copy-out for non-IN dummies: OUT and INOUT behave alike, as '
+                  'with by-reference compilers; the INTENT(OUT)-becomes-undefined rule of the standard is only in the harness '
+                  '(StrictInterp) and in class outline-out-maybe-undefined.')
     technique = ('Lean 4 theorems about a hand-written model of outline_region on FIR programs + correspondence with the real '
                  'code + original-vs-transformed execution oracle')
-    rule = ''
+    rule = ('generated FIR programs (weights towards loops, IF, PRINT, scalar/element/section assignment; no ASSOCIATE in the main unit) '
+            'with 1-2 disjoint `!$loki outline` regions over contiguous statement slices at any nesting depth (no escaping EXIT/CYCLE), '
+            'optional name(..) and inout(..) overrides; 2-3 input sets each; plus generated hosts with an internal procedure using '
+            'host-associated scalars/arrays (module and free-file form). non-trivial = has a region')
     trusted_base = ['harness/fir.py (printer, exporter from Loki IR, reference interpreter)', 'gfortran 12.2 (thorough tier)']
-    assumptions = []
+    assumptions = ['marked regions contain no EXIT/CYCLE of an enclosing loop and no ASSOCIATE, and are not nested (preconditions of '
+                   'outlining, not checked by Loki)', 'pragma override lists are written without blanks (`in(a,b)`)']
     extra_obligations = ['oracle: original vs really outlined program on generated inputs',
                          'oracle: host with internal procedure vs extracted procedures']
 
